@@ -157,7 +157,23 @@ def run_sub_in_worker(spec, sub: Sub, tier: str, seed: int, shard: int, nshards:
         if sub.stateful is not None:
             from hypothesis.stateful import run_state_machine_as_test
 
-            machine = sub.stateful(tier, run_case)
+            class Hooks:
+                @staticmethod
+                def passed(case, info):
+                    account(case, info)
+
+                @staticmethod
+                def failed(case, v):
+                    # returns normally when the failure belongs to a listed known finding
+                    kf = findings.match(spec['id'], sub.name, v, case, sub.check)
+                    if kf is not None:
+                        res['known_hits'][kf] = res['known_hits'].get(kf, 0) + 1
+                        res['evaluations'] += 1
+                        return
+                    state['last'] = (case, v.bucket, v.message)
+                    raise v
+
+            machine = sub.stateful(tier, Hooks)
             steps = getattr(machine, 'STEP_COUNT', {}).get(tier, 30)
             st2 = settings(st_settings, stateful_step_count=steps)
             run_state_machine_as_test(hypothesis.seed(hseed)(machine), settings=st2)
